@@ -451,6 +451,23 @@ func (e *Enc) assertsAt(fr *frame, b *ssa.BasicBlock, idx int, in ssa.Instructio
 		if !strings.Contains(line, a.Anchor) || e.assertDone[a] {
 			continue
 		}
+		if a.Nth > 0 {
+			// matching statements are counted by distinct source line, independent of block order
+			lines := map[int]bool{}
+			for _, bb := range fr.fn.Blocks {
+				for _, ii := range bb.Instrs {
+					switch ii.(type) {
+					case *ssa.Return, *ssa.Call, *ssa.Store, *ssa.MapUpdate, *ssa.BinOp:
+						if ii.Pos().IsValid() && strings.Contains(e.P.srcLine(ii.Pos()), a.Anchor) && e.P.fset.Position(ii.Pos()).Line < e.P.fset.Position(in.Pos()).Line {
+							lines[e.P.fset.Position(ii.Pos()).Line] = true
+						}
+					}
+				}
+			}
+			if len(lines)+1 != a.Nth {
+				continue
+			}
+		}
 		e.assertDone[a] = true
 		env := e.newSpecEnv(fr, st)
 		env.block, env.idx = b, idx
@@ -474,7 +491,7 @@ func (e *Enc) assertsAt(fr *frame, b *ssa.BasicBlock, idx int, in ssa.Instructio
 func (e *Enc) encodeBlock(fr *frame, b *ssa.BasicBlock, st *bstate) {
 	for idx, in := range b.Instrs {
 		switch in.(type) {
-		case *ssa.Return, *ssa.Call, *ssa.Store, *ssa.MapUpdate:
+		case *ssa.Return, *ssa.Call, *ssa.Store, *ssa.MapUpdate, *ssa.BinOp:
 			e.assertsAt(fr, b, idx, in, st)
 		}
 		switch x := in.(type) {
